@@ -71,6 +71,9 @@ pub struct Sock {
 }
 
 impl Sock {
+    pub fn port(&self) -> u16 {
+        self.cur().port
+    }
     fn cur(&self) -> &SockState {
         &self.snaps.last().unwrap().st
     }
@@ -351,6 +354,19 @@ impl Model {
         best
     }
 
+    /// `x` was bound after `d` was sent, to a port that at the send instant belonged to another socket
+    /// of the same host which *was* a multicast destination of `d` (the datagram was in flight to the
+    /// old member when the port changed hands).
+    fn heir_of_member(&self, d: &SendRec, xi: usize) -> bool {
+        let x = &self.socks[xi];
+        if !matches!(d.class, Class::Multicast(_)) || x.born_seq <= d.seq {
+            return false;
+        }
+        self.socks.iter().enumerate().any(|(yi, y)| {
+            yi != xi && y.host == x.host && y.born_seq < d.seq && y.dead.map(|(ds, _)| ds > d.seq).unwrap_or(true) && y.states_in(d.seq, d.seq).any(|s| s.st.port == x.port() && self.targets(d, y, &s.st) != Tri::No)
+        })
+    }
+
     fn is_same_host(&self, d: &SendRec, x: &Sock) -> bool {
         matches!(d.class, Class::Loopback) || x.host == d.src_host
     }
@@ -481,7 +497,7 @@ impl Model {
                     Tri::No => {
                         return (
                             Some(Bad {
-                                class: "Misrouted",
+                                class: if self.heir_of_member(d, r.sock) { "MisroutedToPortHeir" } else { "Misrouted" },
                                 message: format!(
                                     "{} (state {:?}) received datagram {} sent by {} to {} ({:?}) although it was no destination of it at any instant between the send and the receive",
                                     x.name,
@@ -530,6 +546,7 @@ impl Model {
             } else {
                 stats.ambiguous_receives += 1;
                 let mut cands = Vec::new();
+                let mut elsewhere = Vec::new();
                 for (di, d) in self.sends.iter().enumerate() {
                     if d.seq > r.seq || d.len.min(r.buf) != *len {
                         continue;
@@ -544,9 +561,23 @@ impl Model {
                         }
                     }
                     if self.allowed_between(d, r.sock, r.seq) == Tri::No {
+                        elsewhere.push(di);
                         continue;
                     }
                     cands.push(di);
+                }
+                if cands.is_empty() && !elsewhere.is_empty() {
+                    let d = &self.sends[elsewhere[0]];
+                    return (
+                        Some(Bad {
+                            class: if elsewhere.iter().any(|di| self.heir_of_member(&self.sends[*di], r.sock)) { "MisroutedToPortHeir" } else { "Misrouted" },
+                            message: format!(
+                                "{} received {} byte(s) {:?} from {:?}: the only sends that can explain it (e.g. datagram {} sent by {} to {} ({:?})) never had this socket as a destination",
+                                x.name, len, bytes, origin, d.id, self.socks[d.sock].name, d.dst, d.class
+                            ),
+                        }),
+                        stats,
+                    );
                 }
                 if cands.is_empty() {
                     return (
@@ -628,7 +659,7 @@ impl Model {
                 }
                 // first empty observation after the deadline
                 let Some((oseq, ostep)) = list.iter().filter(|(_, st)| *st > dl).min_by_key(|(s, _)| *s).copied() else { continue };
-                let received_before = got.get(&(d.id, *xi)).map(|(_, _, rseq)| *rseq < oseq).unwrap_or(false);
+                let received_before = got.get(&(d.id, *xi)).map(|(_, _, rseq)| *rseq <= oseq).unwrap_or(false);
                 if received_before {
                     continue;
                 }
